@@ -108,12 +108,14 @@ structure Built where
 inductive Asm where
   | leaderErr
   | trailerErr
+  /-- `trailer.block_id() != leader.block_id()` -/
+  | idMismatch
   | buildErr
   | built (b : Built)
   | panic
   deriving Repr, DecidableEq, BEq
 
-/-- `(leader_buf, trailer_buf, payload_buf, read_payload_size) ↦ outcome`. -/
+/-- `(leader_buf[..first], trailer_buf[..last], payload_buf, read_payload_size) ↦ outcome`. -/
 abbrev Assembler := Bytes → Bytes → Bytes → Nat → Asm
 
 /-- An `Ok(Payload)`.  `start`, `read`, `parts` are ghost: index of the first script item the
@@ -162,10 +164,12 @@ inductive PC where
   | dead
   deriving Repr, DecidableEq, BEq
 
-/-- Controller (`StreamHandle`): `running` = `cancellation_tx.is_some()`, `stopping` = blocked
-in the rendezvous `send`, `stopOk/stopErr` = `stop_streaming_loop` returned. -/
+/-- Controller (`StreamHandle`): `running` = `cancellation_tx.is_some()`, `calling` = inside
+`stop_streaming_loop` after `take()` but not yet parked in `send`, `stopping` = blocked in the
+rendezvous `send`, `stopOk/stopErr` = `stop_streaming_loop` returned. -/
 inductive Ctl where
   | running
+  | calling
   | stopping
   | stopOk
   | stopErr
@@ -239,11 +243,12 @@ inductive Step where
   | rxDrop (id : Nat)
   | rxClose
   | stopCall
+  | stopBlock
   | stopDisc
   deriving Repr, DecidableEq, BEq
 
 def Step.isLoop : Step → Bool
-  | .rxRecv | .rxNone | .rxSendBack _ | .rxDrop _ | .rxClose | .stopCall | .stopDisc => false
+  | .rxRecv | .rxNone | .rxSendBack _ | .rxDrop _ | .rxClose | .stopCall | .stopBlock | .stopDisc => false
   | _ => true
 
 /-- `Vec::resize(max, 0)` -/
@@ -370,15 +375,19 @@ def stepPollPending (s : State) : Option State :=
     | [] => none
   else none
 
-/-- `payload_len - last_buf_len.unwrap()`, `Leader::parse`, `Trailer::parse`, `build`. -/
+/-- `payload_len - last_buf_len.unwrap()`, `Leader::parse`, `Trailer::parse`, block id check,
+`build`. -/
 def stepParse (s : State) : Option State :=
   if s.pc = .parse then
     match s.last, s.cur with
     | some l, some b =>
       if l ≤ s.plen then
         let read := s.plen - l
-        match A s.leaderBuf s.trailerBuf b.bytes read with
-        | .leaderErr | .trailerErr =>
+        -- only the bytes received in this iteration are parsed
+        let ll := min (s.first.getD 0) s.leaderBuf.length     -- `first_buf_len.unwrap_or(0).min(len)`
+        let tl := min l s.trailerBuf.length
+        match A (s.leaderBuf.take ll) (s.trailerBuf.take tl) b.bytes read with
+        | .leaderErr | .trailerErr | .idMismatch =>
           some { s with reuse := s.cur, cur := none, faults := s.faults + 1,
                         pc := .send (.err .invalidPayload) }
         | .buildErr =>
@@ -478,9 +487,14 @@ def stepRxDrop (id : Nat) (s : State) : Option State :=
 def stepRxClose (s : State) : Option State :=
   if s.rxAlive then some { s with rxAlive := false } else none
 
-/-- `stop_streaming_loop`: `take()` the sender, then the rendezvous `send`. -/
+/-- `stop_streaming_loop` is entered: `cancellation_tx.take()` clears the running flag. -/
 def stepStopCall (s : State) : Option State :=
-  if s.ctl = .running then
+  if s.ctl = .running then some { s with ctl := .calling } else none
+
+/-- `cancellation_tx.send(())`: fails at once when the loop thread is gone (receiver dropped),
+otherwise the controller parks until the loop's `try_recv` takes the message. -/
+def stepStopBlock (s : State) : Option State :=
+  if s.ctl = .calling then
     if s.pc = .exited ∨ s.pc = .dead then some { s with ctl := .stopErr }
     else some { s with ctl := .stopping }
   else none
@@ -512,6 +526,7 @@ def step (s : State) : Step → Option State
   | .rxDrop id => stepRxDrop id s
   | .rxClose => stepRxClose s
   | .stopCall => stepStopCall s
+  | .stopBlock => stepStopBlock s
   | .stopDisc => stepStopDisc s
 
 /-- Candidate steps of a state (parameters enumerated from the state). -/
@@ -519,7 +534,7 @@ def candidates (s : State) : List Step :=
   [.checkCancel, .obtainReuse, .obtainBack, .obtainAlloc, .submitOk,
    .submitFail .io, .submitFail .disconnected, .submitFail .timeout,
    .pollOk, .pollOverflow, .pollFault, .pollPending, .parse, .trySend,
-   .cancelNext, .reapOne, .iterEnd, .exit, .rxRecv, .rxNone, .rxClose, .stopCall, .stopDisc]
+   .cancelNext, .reapOne, .iterEnd, .exit, .rxRecv, .rxNone, .rxClose, .stopCall, .stopBlock, .stopDisc]
   ++ s.held.map (fun m => .rxSendBack m.buf.id)
   ++ s.held.map (fun m => .rxDrop m.buf.id)
 
